@@ -65,11 +65,28 @@ def lib_flags(flavour='rel'):
     return fl
 
 
+def _repo_hash(deps):
+    """content hash of the dependencies that live in /repo (time stamps of a restored or copied tree say nothing)"""
+    import hashlib
+    h = hashlib.sha256()
+    for d in sorted(deps):
+        if d.startswith(REPO + os.sep) and os.path.isfile(d):
+            h.update(d.encode()); h.update(open(d, 'rb').read())
+    return h.hexdigest()
+
+
 def _newer(target, deps):
     if not os.path.exists(target):
         return True
     t = os.path.getmtime(target)
-    return any(os.path.getmtime(d) > t for d in deps if os.path.exists(d))
+    if any(os.path.getmtime(d) > t for d in deps if os.path.exists(d)):
+        return True
+    stamp = target + '.repo-sha256'
+    return not os.path.exists(stamp) or open(stamp).read().strip() != _repo_hash(deps)
+
+
+def _record(target, deps):
+    open(target + '.repo-sha256', 'w').write(_repo_hash(deps))
 
 
 def build_bin(name, sources, flavour='rel', link_lib=True, extra=(), header_deps=()):
@@ -94,6 +111,7 @@ def build_bin(name, sources, flavour='rel', link_lib=True, extra=(), header_deps
             rc, o, e = sh(cmd, timeout=1800)
             if rc != 0:
                 raise RepoBroken('harness %s does not compile against the current tree:\n%s' % (name, e[-3000:]))
+            _record(out, deps)
     return out
 
 
